@@ -18,7 +18,8 @@ def run_hist_job(job):
         ops = [tuple(o) if not isinstance(o, tuple) else o for o in ops]
         top = core.new_scratch()
         try:
-            run = rfrun.execute(cfg, ops, seed, top, snapshot_rejects=opts.get("snapshot_rejects", False))
+            run = rfrun.execute(cfg, ops, seed, top, snapshot_rejects=opts.get("snapshot_rejects", False),
+                                sparse_getters=opts.get("sparse_getters", False))
             part["evaluations"] += 1
             part["traces"] += 1
             part["transitions"] += len(ops)
